@@ -661,17 +661,20 @@ def _collected_filter_literals(fi, astnode):
     cur = astnode
     while getattr(cur, '_parent', None) is not None and cur is not fi.node:
         cur = cur._parent
-        if not (isinstance(cur, ast.For) and isinstance(cur.iter, ast.Name) and
-                isinstance(cur.target, ast.Name)):
+        if not (isinstance(cur, ast.For) and isinstance(cur.target, ast.Name)):
             continue
-        L = cur.iter.id
-        defs = [n for n in ast.walk(fi.node) if isinstance(n, ast.Assign) and
-                any(is_name(t, L) for t in n.targets)]
-        stores = [n for n in ast.walk(fi.node) if isinstance(n, ast.Name) and n.id == L and
-                  isinstance(n.ctx, (ast.Store, ast.Del))]
-        if len(defs) != 1 or len(stores) != 1:
-            continue
-        v = defs[0].value
+        if isinstance(cur.iter, ast.Name):
+            L = cur.iter.id
+            defs = [n for n in ast.walk(fi.node) if isinstance(n, ast.Assign) and
+                    any(is_name(t, L) for t in n.targets)]
+            stores = [n for n in ast.walk(fi.node) if isinstance(n, ast.Name) and n.id == L and
+                      isinstance(n.ctx, (ast.Store, ast.Del))]
+            if len(defs) != 1 or len(stores) != 1:
+                continue
+            v = defs[0].value
+        else:
+            # the filtered collection is written directly into the loop header
+            v = cur.iter
         if isinstance(v, ast.Call) and call_name(v) in ('list', 'tuple') and len(v.args) == 1:
             v = v.args[0]
         if not (isinstance(v, (ast.ListComp, ast.GeneratorExp)) and len(v.generators) == 1 and
@@ -814,10 +817,11 @@ def iter_source(expr):
     each, in order: X, iter(X), list(X), tuple(X) -> 'plain'; enumerate(X[, start]) ->
     'enumerate' (the element is the second item of the loop target)"""
     e, form = expr, 'plain'
-    while isinstance(e, ast.Call) and isinstance(e.func, ast.Name) and not e.keywords:
-        if e.func.id in ORDER_KEEPING and len(e.args) == 1:
+    while isinstance(e, ast.Call) and isinstance(e.func, ast.Name):
+        if e.func.id in ORDER_KEEPING and len(e.args) == 1 and not e.keywords:
             e = e.args[0]
-        elif e.func.id == 'enumerate' and form == 'plain' and 1 <= len(e.args) <= 2:
+        elif e.func.id == 'enumerate' and form == 'plain' and 1 <= len(e.args) <= 2 and \
+                all(k.arg == 'start' for k in e.keywords):
             e, form = e.args[0], 'enumerate'
         else:
             break
